@@ -11,10 +11,10 @@ sys.path.insert(0, str(Path(__file__).resolve().parent.parent))
 P = Path(__file__).resolve().parent.parent / "sa" / "baseline_functions.json"
 root = Path(sys.argv[1] if len(sys.argv) > 1 else "/repo")
 
-from sa.inline import cond_value_candidates  # noqa: E402
+from sa.inline import cond_value_candidates, guard_candidates  # noqa: E402
 from sa.model import Canon  # noqa: E402
 
-funcs, aliases, cvs = [], [], []
+funcs, aliases, cvs, guards = [], [], [], []
 for path in sorted((root / "src").rglob("*.py")):
     rel = path.relative_to(root / "src")
     parts = list(rel.with_suffix("").parts)
@@ -23,6 +23,7 @@ for path in sorted((root / "src").rglob("*.py")):
     mod = ".".join(parts)
     tree = ast.fix_missing_locations(Canon().visit(ast.parse(path.read_text())))
     cvs.extend(cond_value_candidates(tree))
+    guards.extend(guard_candidates(tree))
 
     def walk(body, prefix):
         for n in body:
@@ -58,9 +59,10 @@ out = {
     "functions": sorted(set(funcs)),
     "aliases": sorted(aliases),
     "cond_values": sorted(set(cvs)),
+    "guards": sorted(set(guards)),
 }
 old = json.loads(P.read_text())
 if set(old.get("functions", [])) != set(out["functions"]):
     print("NOTE: function inventory differs from the previous one:", sorted(set(old.get("functions", [])) ^ set(out["functions"]))[:10])
 P.write_text(json.dumps(out, indent=0) + "\n")
-print(len(out["functions"]), "functions,", len(aliases), "aliases,", len(out["cond_values"]), "conditional values")
+print(len(out["functions"]), "functions,", len(aliases), "aliases,", len(out["cond_values"]), "conditional values,", len(out["guards"]), "guard clauses")
